@@ -3,7 +3,7 @@ From Coq Require Import NArith List Bool.
 From Verif Require Import Sx Str Tok.
 From Verif.Gen Require Import InputStream.
 From Verif.Model Require Import C05.
-From Verif.Proofs Require Import C05.
+From Verif.Proofs Require Import C05 C05pos.
 Import ListNotations.
 Local Open Scope N_scope.
 
@@ -32,9 +32,17 @@ Theorem c05_refill : forall s, src_ok s ->
   else chunk s1 = [] /\ future s = [] /\ future s1 = [].
 Proof. exact rc_spec. Qed.
 
-(* PARTIAL: (line, column) positions, charsUntil and unget are modelled (Model/C05.v) and tied to the real
-   class by exact-agreement correspondence on client operation sequences, but their segmentation independence
-   is not proved here; byte sources go through codecs decoders that are not modelled. *)
+(* POSITIONS: after k characters the stream reports the (line, column) that the first k newline-normalised
+   characters determine -- 1 + the number of LF, the number of characters since the last LF -- for EVERY segmentation
+   of the input into non-empty reads: error positions do not depend on how the characters are delivered *)
+Theorem c05_position_segmentation_independent : forall reads k s,
+  Forall (fun d => d <> []) reads -> iter_char k (init reads) = Some s ->
+  position s = pos_of (firstn k (norm (concat reads))).
+Proof. exact position_segmentation_independent. Qed.
+
+(* PARTIAL: charsUntil and unget are modelled (Model/C05.v) and tied to the real class by exact-agreement
+   correspondence on client operation sequences, but positions after THEM (unget adjusts the counters by hand) are
+   not covered by the theorem above; byte sources go through codecs decoders that are not modelled. *)
 
 (* non-vacuity: "a\r\nb" delivered as "a\r" + "\n" + "b" and as single characters *)
 Example c05_example :
